@@ -607,7 +607,9 @@ func runKnownTwin(rng *rand.Rand, t *vtree, w *vwriter) {
 				for _, kind := range []string{"swaptx", "droptx", "adduncle"} {
 					n.insert([]*vblk{t.corruptKind(rng, v, kind)})
 				}
-				n.insert(pb[len(upto):])
+				if rest := pb[len(upto):]; len(rest) > 0 {
+					n.insert(rest)
+				}
 				n.stop()
 			}
 		}
@@ -651,7 +653,9 @@ func runGhost(t *vtree, w *vwriter) {
 				n.insert(pathTo(la))
 				n.guard(func() (int, error) { n.bc.Stop(); n.open(); return 0, nil })
 				n.insert([]*vblk{b})
-				n.insert(pathTo(lb)[len(pathTo(b)):])
+				if rest := pathTo(lb)[len(pathTo(b)):]; len(rest) > 0 {
+					n.insert(rest)
+				}
 				n.stop()
 			}
 		}
